@@ -101,6 +101,56 @@ impl From<PairConv> for (Conv<0>, Seed2<0>) {
     fn from(p: PairConv) -> Self { (Conv { src: p.a, hops: p.hops.wrapping_add(1), via: 4 }, Seed2(p.b)) }
 }
 
+/// The listed type of a single-field struct may be a 1-TUPLE `(T,)`: it is the whole type to convert, not a list of one per-field
+/// type. `via` tells the two apart: 5 = the 1-tuple impl ran, 6 / 1 = the bare-element impl ran.
+impl<const K: u8> From<(Seed<K>,)> for Conv<K> {
+    fn from(s: (Seed<K>,)) -> Self { Conv { src: (s.0).0, hops: 1, via: 5 } }
+}
+/// Field type converting both into `(Conv<0>,)` and into `Conv<0>`.
+#[derive(Clone, Copy, Debug, PartialEq, Eq)]
+pub struct One(pub u32);
+impl From<One> for (Conv<0>,) {
+    fn from(o: One) -> Self { (Conv { src: o.0, hops: 1, via: 5 },) }
+}
+impl From<One> for Conv<0> {
+    fn from(o: One) -> Self { Conv { src: o.0, hops: 1, via: 6 } }
+}
+/// Field type lending both a `&(Lab,)` and a `&Lab` (two different places, so the address tells which impl ran).
+#[derive(Clone, Copy, Debug, PartialEq, Eq)]
+pub struct Lab(pub u32);
+#[derive(Clone, Copy, Debug, PartialEq, Eq)]
+pub struct OneRef {
+    pub wrapped: (Lab,),
+    pub bare: Lab,
+}
+impl<'a> From<&'a OneRef> for &'a (Lab,) {
+    fn from(t: &'a OneRef) -> Self { REF_HOPS.store(REF_HOPS.load(Ordering::Relaxed).wrapping_add(1), Ordering::Relaxed); &t.wrapped }
+}
+impl<'a> From<&'a OneRef> for &'a Lab {
+    fn from(t: &'a OneRef) -> Self { REF_HOPS.store(REF_HOPS.load(Ordering::Relaxed).wrapping_add(1), Ordering::Relaxed); &t.bare }
+}
+impl<'a> From<&'a mut OneRef> for &'a mut (Lab,) {
+    fn from(t: &'a mut OneRef) -> Self { REF_HOPS.store(REF_HOPS.load(Ordering::Relaxed).wrapping_add(1), Ordering::Relaxed); &mut t.wrapped }
+}
+impl<'a> From<&'a mut OneRef> for &'a mut Lab {
+    fn from(t: &'a mut OneRef) -> Self { REF_HOPS.store(REF_HOPS.load(Ordering::Relaxed).wrapping_add(1), Ordering::Relaxed); &mut t.bare }
+}
+
+/// `Maybe::<T, _>::new(u).conv()` is `Some(T::from(u))` if `T: From<U>` holds and `None` otherwise (the inherent method is
+/// preferred over the trait method whenever its bounds hold; resolved at the concrete call site). It turns presence / absence
+/// of ONE impl into a run-time value, so a wrong impl set that still compiles becomes a counterexample the verifier can replay.
+pub struct Maybe<T, U>(pub Option<U>, pub core::marker::PhantomData<T>);
+impl<T, U> Maybe<T, U> {
+    pub fn new(u: U) -> Self { Maybe(Some(u), core::marker::PhantomData) }
+}
+pub trait MaybeFallback<T> {
+    fn conv(&mut self) -> Option<T> { None }
+}
+impl<T, U> MaybeFallback<T> for Maybe<T, U> {}
+impl<T: From<U>, U> Maybe<T, U> {
+    pub fn conv(&mut self) -> Option<T> { self.0.take().map(T::from) }
+}
+
 /// Wrapper for generic fields of `Into` programs (the orphan rule forbids `impl<T> From<S<T>> for T`).
 #[derive(Clone, Copy, Debug, PartialEq, Eq)]
 pub struct Wr<T>(pub T);
@@ -172,7 +222,7 @@ def conj(xs):
 class Def:
     """A struct (or the field list of one enum variant)."""
 
-    def __init__(self, shape, tys, name="S", attrs=(), fattrs=None, gdecl="", guse="", where=""):
+    def __init__(self, shape, tys, name="S", attrs=(), fattrs=None, gdecl="", guse="", where="", names=None):
         self.shape = shape if tys or shape != "unit" else "unit"
         self.tys = list(tys)
         self.n = len(self.tys)
@@ -180,9 +230,10 @@ class Def:
         self.attrs = list(attrs)
         self.fattrs = fattrs or [[] for _ in self.tys]
         self.gdecl, self.guse, self.where = gdecl, guse, where
+        self.names = list(names) if names else NAMES
 
     def acc(self, i):
-        return str(i) if self.shape == "tuple" else NAMES[i]
+        return str(i) if self.shape == "tuple" else self.names[i]
 
     def body(self):
         if self.shape == "unit":
@@ -190,7 +241,7 @@ class Def:
         fs = []
         for i, t in enumerate(self.tys):
             a = "".join(x + " " for x in self.fattrs[i])
-            fs.append(a + ("pub " + t.rust if self.shape == "tuple" else "pub %s: %s" % (NAMES[i], t.rust)))
+            fs.append(a + ("pub " + t.rust if self.shape == "tuple" else "pub %s: %s" % (self.names[i], t.rust)))
         return "(" + ", ".join(fs) + ")" if self.shape == "tuple" else " { " + ", ".join(fs) + " }"
 
     def vbody(self):
@@ -211,14 +262,14 @@ class Def:
             return path
         if self.shape == "tuple":
             return "%s(%s)" % (path, ", ".join(vals))
-        return "%s { %s }" % (path, ", ".join("%s: %s" % (NAMES[i], v) for i, v in enumerate(vals)))
+        return "%s { %s }" % (path, ", ".join("%s: %s" % (self.names[i], v) for i, v in enumerate(vals)))
 
     def pat(self, path, binds):
         if self.shape == "unit":
             return path
         if self.shape == "tuple":
             return "%s(%s)" % (path, ", ".join(binds))
-        return "%s { %s }" % (path, ", ".join("%s: %s" % (NAMES[i], v) for i, v in enumerate(binds)))
+        return "%s { %s }" % (path, ", ".join("%s: %s" % (self.names[i], v) for i, v in enumerate(binds)))
 
     def mk(self, path=None):
         return self.lit(path or self.name, [t.any for t in self.tys])
@@ -278,9 +329,9 @@ def H(name, obligation, body, kind="proof", fn=None):
 # ----------------------------------------------------------------------------------------------------------------------
 # P1: plain struct deriving From + Into + Constructor
 # ----------------------------------------------------------------------------------------------------------------------
-def prog_plain(shape, n, typing, with_contract=False, with_control=False):
-    d = Def(shape, field_tys(n, typing))
-    key = "s_%s%d_%s" % (shape, n, typing) if n else "s_%s0" % shape
+def prog_plain(shape, n, typing, with_contract=False, with_control=False, names=None, tag=""):
+    d = Def(shape, field_tys(n, typing), names=names)
+    key = ("s_%s%d_%s" % (shape, n, typing) if n else "s_%s0" % shape) + tag
     src_ty = tup(t.rust for t in d.tys) if n else "()"
     items = d.decl(["Clone", "Copy", "Debug", "From", "Into", "Constructor"]) + "\npub type Src = %s;" % src_ty
     eqs = conj("r.%s == %s" % (d.acc(i), comp("a", n, i)) for i in range(n))
@@ -425,12 +476,12 @@ def attr_lines(args):
     return ["#[into(%s)]" % a if a else "#[into]" for a in args]
 
 
-def prog_into(key, shape, tys, skip=None, sattr=None, fattr=None, style="joined", skipword="skip", fstyle=None):
+def prog_into(key, shape, tys, skip=None, sattr=None, fattr=None, style="joined", skipword="skip", fstyle=None, names=None):
     n = len(tys)
     skip = skip or [False] * n
     fattr = fattr or [None] * n
     idx_ns = [i for i in range(n) if not skip[i]]
-    d = Def(shape, tys)
+    d = Def(shape, tys, names=names)
     attrs = []
     if sattr is not None:
         attrs = attr_lines(render_conv(sattr, lambda kind, t: tup(spec_ty(d.tys[i], s) for i, s in zip(idx_ns, t)), style))
@@ -444,7 +495,7 @@ def prog_into(key, shape, tys, skip=None, sattr=None, fattr=None, style="joined"
         if style == "rev":
             fa.reverse()
         fattrs.append(fa)
-    d = Def(shape, tys, attrs=attrs, fattrs=fattrs)
+    d = Def(shape, tys, attrs=attrs, fattrs=fattrs, names=names)
     items = d.decl(["Clone", "Copy", "Debug", "Into"])
     exp = into_expected(n, skip, sattr, fattr)
     posts, hs = [], []
@@ -571,6 +622,8 @@ def prog_into(key, shape, tys, skip=None, sattr=None, fattr=None, style="joined"
 def src_spec_ty(ft, spec):
     if spec == "own":
         return ft
+    if spec == "seed1t":   # the 1-tuple `(Seed<K>,)` as ONE listed type for ONE field
+        return Ty("(Seed<%d>,)" % ft.k, "(Seed::<%d>(kani::any()),)" % ft.k, ft.k)
     return {"seed": SEED, "seed2": SEED2, "conv": CONV}[spec](ft.k)
 
 
@@ -583,6 +636,8 @@ def from_checks(d, n, specs, field_expr):
             cs.append("%s == %s" % (f, a))
         elif s == "seed":
             cs.append("%s.src == %s.0 && %s.hops == 1 && %s.via == 1" % (f, a, f, f))
+        elif s == "seed1t":
+            cs.append("%s.src == (%s.0).0 && %s.hops == 1 && %s.via == 5" % (f, a, f, f))
         elif s == "seed2":
             cs.append("%s.src == %s.0 as u32 && %s.hops == 1 && %s.via == 2" % (f, a, f, f))
         elif s == "conv":
@@ -591,8 +646,8 @@ def from_checks(d, n, specs, field_expr):
 
 
 class Variant:
-    def __init__(self, name, shape, tys, attr=None, listed=None, witnesses=None, split=False):
-        self.name, self.d = name, Def(shape, tys)
+    def __init__(self, name, shape, tys, attr=None, listed=None, witnesses=None, split=False, names=None):
+        self.name, self.d = name, Def(shape, tys, names=names)
         self.attr = attr          # None | "from" | "skip" | "ignore" | "types" | "forward"
         self.listed = listed or []  # for "types": list of spec lists
         self.witnesses = witnesses or []  # for "forward": spec lists to call the blanket impl with
@@ -642,7 +697,7 @@ def prog_from(key, variants, is_enum, extra_negs=(), gdecl="", guse="", derives=
         title = "enum S%s { %s }  #[derive(From)]" % (gdecl, " ".join(x.strip() for x in vs))
     else:
         v = variants[0]
-        d = Def(v.d.shape, v.d.tys, attrs=v.attr_lines(), gdecl=gdecl)
+        d = Def(v.d.shape, v.d.tys, attrs=v.attr_lines(), gdecl=gdecl, names=v.d.names)
         items = d.decl(list(derives))
         title = d.title() + "  #[derive(From)]"
     posts, hs, negs = [], [], []
@@ -793,6 +848,112 @@ def listed_tuple_single_field_programs():
     return out
 
 
+def listed_one_tuple_programs(tier):
+    """A listed 1-TUPLE type `(T,)` for a single (non-skipped) field is the whole type to convert (doc: one impl per listed type):
+    `#[into((T,))] struct S(F)` => `impl From<S> for (T,)` through `<(T,) as From<F>>`, and NOT `impl From<S> for T`. The probes
+    implement BOTH conversions (different `via` / different addresses), and presence / absence of each impl is observed as a value
+    through `Maybe::<Target, Source>::conv()`, so the wrong impl set is a counterexample the verifier replays."""
+    out = []
+    I = lambda *ts: [INT(t) for t in ts]
+    C1 = lambda: field_tys(1, "distinct", CONV)
+    # From side: the field is built by <Conv<0> as From<(Seed<0>,)>> (via 5), never by From<Seed<0>> (via 1)
+    out.append(prog_from("f_tuple1_listed_1tuple", [Variant("S", "tuple", C1(), "types", [["seed1t"]])], False,
+                         extra_negs=["S: From<Seed<0>>", "S: From<Conv<0>>", "S: From<()>"]))
+    out.append(prog_from("e_variant1_listed_1tuple", [Variant("A", "named", C1(), "types", [["seed1t"]]), Variant("B", "tuple", I("u8", "u16")),
+                                                      Variant("U", "unit", [])], True, extra_negs=["S: From<Seed<0>>", "S: From<Conv<0>>"]))
+    if tier == "thorough":
+        out.append(prog_from("f_named1_listed_1tuple_and_bare", [Variant("S", "named", C1(), "types", [["seed1t"], ["seed"]], split=True)], False,
+                             extra_negs=["S: From<Seed2<0>>", "S: From<Conv<0>>"]))
+
+    def owned(key, title, items, mk, field, negs):
+        posts = ["/// the listed 1-tuple impl ran exactly once on the field: via == 5 (the bare-element impl would leave via == 6)\n"
+                 "pub fn post_into_owned(v: &S, t: &(Conv<0>,)) -> bool { t.0.src == (v.%s).0 && t.0.hops == 1 && t.0.via == 5 }" % field]
+        hs = [H("ob_into_owned_impl_set",
+                "forall v. `(Conv<0>,): From<S>` exists and post_into_owned(v, it(v)) [one <(Conv<0>,) as From<One>>::from of the field]; "
+                "`Conv<0>: From<S>` (the bare element of the listed 1-tuple) does NOT exist -- both observed as values via Maybe::conv",
+                ["let v = %s;" % mk,
+                 "let got = Maybe::<(Conv<0>,), S>::new(v).conv();",
+                 'assert!(matches!(&got, Some(t) if post_into_owned(&v, t)), "From<S> for (Conv<0>,) exists and satisfies post_into_owned");',
+                 'assert!(Maybe::<Conv<0>, S>::new(v).conv().is_none(), "no From<S> for the bare element type Conv<0>");'],
+                fn="<(Conv<0>,) as From<S>>::from")]
+        return finish(key, title, items, posts, hs, negs)
+
+    out.append(owned("it_tuple1_listed_1tuple", "#[into((Conv<0>,))] struct S(One)  #[derive(Into)]  (One converts into (Conv<0>,) AND into Conv<0>)",
+                     "#[derive(Clone, Copy, Debug, Into)]\n#[into((Conv<0>,))]\npub struct S(pub One);", "S(One(kani::any()))", "0",
+                     ["One: From<S>", "(One,): From<S>", "&'static (Conv<0>,): From<&'static S>"]))
+    out.append(owned("if_tuple2_field0_listed_1tuple", "struct S(#[into((Conv<0>,))] One, u8)  #[derive(Into)]  (field-level listed 1-tuple)",
+                     "#[derive(Clone, Copy, Debug, Into)]\npub struct S(#[into((Conv<0>,))] pub One, pub u8);", "S(One(kani::any()), kani::any())", "0",
+                     ["One: From<S>", "(One, u8): From<S>", "u8: From<S>"]))
+    if tier == "thorough":
+        out.append(owned("it_named2_skip0_listed_1tuple", "#[into((Conv<0>,))] struct S { #[into(skip)] fa: u8, fb: One }  #[derive(Into)]",
+                         "#[derive(Clone, Copy, Debug, Into)]\n#[into((Conv<0>,))]\npub struct S { #[into(skip)] pub fa: u8, pub fb: One }",
+                         "S { fa: kani::any(), fb: One(kani::any()) }", "fb", ["One: From<S>", "(u8, One): From<S>", "(u8, Conv<0>): From<S>"]))
+        # both the 1-tuple and its element listed: two impls, told apart by `via`
+        out.append(finish(
+            "it_named1_listed_1tuple_and_bare", "#[into((Conv<0>,), Conv<0>)] struct S { fa: One }  #[derive(Into)]",
+            "#[derive(Clone, Copy, Debug, Into)]\n#[into((Conv<0>,), Conv<0>)]\npub struct S { pub fa: One }",
+            ["pub fn post_into_owned_1tuple(v: &S, t: &(Conv<0>,)) -> bool { t.0.src == v.fa.0 && t.0.hops == 1 && t.0.via == 5 }",
+             "pub fn post_into_owned_bare(v: &S, t: &Conv<0>) -> bool { t.src == v.fa.0 && t.hops == 1 && t.via == 6 }"],
+            [H("ob_into_owned", "forall v. each listed type gets its own impl through its own <Listed as From<One>>::from (via 5 / via 6)",
+               ["let v = S { fa: One(kani::any()) };",
+                'let t = <(Conv<0>,) as From<S>>::from(v); assert!(post_into_owned_1tuple(&v, &t), "post_into_owned_1tuple");',
+                'let u = <Conv<0> as From<S>>::from(v); assert!(post_into_owned_bare(&v, &u), "post_into_owned_bare");'],
+               fn="<(Conv<0>,) as From<S>>::from; <Conv<0> as From<S>>::from")],
+            ["One: From<S>"]))
+    # references: &(Lab,) and &Lab are two different places inside the field, so the address tells which impl ran
+    mk = "S { fa: OneRef { wrapped: (Lab(kani::any()),), bare: Lab(kani::any()) } }"
+    out.append(finish(
+        "it_named1_listed_1tuple_refs", "#[into(ref((Lab,)), ref_mut((Lab,)))] struct S { fa: OneRef }  #[derive(Into)]  (OneRef lends &(Lab,) AND &Lab)",
+        "#[derive(Clone, Copy, Debug, Into)]\n#[into(ref((Lab,)), ref_mut((Lab,)))]\npub struct S { pub fa: OneRef }",
+        ["/// the reference is the one <&(Lab,) as From<&OneRef>> hands out for that very field\n"
+         "pub fn post_into_ref(v: &S, t: &&(Lab,)) -> bool { ptr::eq(*t, &v.fa.wrapped) }",
+         "pub fn post_into_mut_addr(p: *const u8, t: &&mut (Lab,)) -> bool { ptr::eq(addr(&**t), p) }",
+         "pub fn post_into_mut_written(old: &S, new: &S, x: u32) -> bool { ((new.fa.wrapped).0).0 == x && new.fa.bare == old.fa.bare }"],
+        [H("ob_into_ref_impl_set", "forall v. `&(Lab,): From<&S>` exists, points at v.fa.wrapped, one From::from; `&Lab: From<&S>` does NOT exist "
+           "(observed as values via Maybe::conv)",
+           ["let v = %s;" % mk, "ref_hops_reset();",
+            "{ let got = Maybe::<&(Lab,), &S>::new(&v).conv(); "
+            'assert!(matches!(&got, Some(t) if post_into_ref(&v, t)), "From<&S> for &(Lab,) exists and satisfies post_into_ref"); }',
+            'assert!(ref_hops() == 1, "exactly one From::from of the field");',
+            'assert!(Maybe::<&Lab, &S>::new(&v).conv().is_none(), "no From<&S> for the bare element &Lab");'],
+           fn="<&(Lab,) as From<&S>>::from"),
+         H("ob_into_ref_mut_impl_set", "forall v, x. `&mut (Lab,): From<&mut S>` exists, points at v.fa.wrapped, a write through it is visible "
+           "there and nowhere else; `&mut Lab: From<&mut S>` does NOT exist",
+           ["let mut v = %s; let old = v;" % mk, "let p = addr(&v.fa.wrapped);", "let x: u32 = kani::any();", "ref_hops_reset();",
+            "{ let got = Maybe::<&mut (Lab,), &mut S>::new(&mut v).conv(); "
+            'assert!(matches!(&got, Some(t) if post_into_mut_addr(p, t)), "From<&mut S> for &mut (Lab,) exists and points at the field"); '
+            "if let Some(t) = got { (t.0).0 = x; } }",
+            'assert!(ref_hops() == 1, "exactly one From::from of the field");',
+            'assert!(post_into_mut_written(&old, &v, x), "post_into_mut_written");',
+            'assert!(Maybe::<&mut Lab, &mut S>::new(&mut v).conv().is_none(), "no From<&mut S> for the bare element &mut Lab");'],
+           fn="<&mut (Lab,) as From<&mut S>>::from")],
+        ["OneRef: From<S>", "(Lab,): From<S>", "Lab: From<S>", "&'static OneRef: From<&'static S>"]))
+    return out
+
+
+def enum_fieldless_annotated_programs(tier):
+    """Enums in which EVERY explicitly annotated variant is field-less (unit / `V()` / `V {}` x `#[from]` / `#[from(())]` /
+    `#[from(forward)]`) next to un-annotated variants WITH fields: the annotation gives `From<()>` for that variant (presence: called)
+    and switches every un-annotated variant off (absence: assert_not_impl_any! on each of their own-typed tuples)."""
+    out = []
+    I = lambda *ts: [INT(t) for t in ts]
+    sibs = [
+        lambda: [Variant("Key", "tuple", I("u32")), Variant("Resize", "named", I("u16", "u32"))],
+        lambda: [Variant("P", "named", I("u8")), Variant("Q", "tuple", I("u32", "u32", "u32")), Variant("Z", "unit", [])],
+        lambda: [Variant("A", "tuple", I("u8", "u16")), Variant("B", "named", I("u16", "u8", "u32")), Variant("C", "tuple", I("u16"))],
+    ]
+    c = 0
+    for sh in ("unit", "tuple", "named"):
+        for attr in ("from", "types", "forward"):
+            v = Variant("Tick", sh, [], attr, listed=[[]] if attr == "types" else None, witnesses=[[]] if attr == "forward" else None)
+            vs = sibs[c % 3]()
+            vs.insert(c % (len(vs) + 1), v)
+            out.append(prog_from("e_%s0_%s_only_fieldless_annotated" % (sh, {"from": "from", "types": "listed_unit", "forward": "forward"}[attr]),
+                                 vs, True, extra_negs=["S: From<u8>" if c % 3 == 0 else "S: From<(u32, u32)>"]))
+            c += 1
+    return out
+
+
 # ----------------------------------------------------------------------------------------------------------------------
 # the family
 # ----------------------------------------------------------------------------------------------------------------------
@@ -807,6 +968,12 @@ def plain_programs(tier):
             for sh in ("tuple", "named"):
                 for ty in (("distinct", "same") if n > 1 else ("distinct",)):
                     shapes.append((sh, n, ty))
+    # named fields whose names are raw keywords (`r#type`): `new`'s parameters, the struct literal and the accessors all need the r# form
+    out.append(prog_plain("named", 3, "distinct", names=["r#type", "r#in", "r#while"], tag="_rawkw"))
+    out.append(prog_plain("named", 2, "same", names=["r#fn", "r#priority"], tag="_rawkw"))
+    if tier == "thorough":
+        out.append(prog_plain("named", 1, "distinct", names=["r#match"], tag="_rawkw"))
+        out.append(prog_plain("named", 3, "same", names=["r#loop", "r#struct", "r#mod"], tag="_rawkw"))
     first_contract = True
     first_control = True
     for sh, n, ty in shapes:
@@ -1042,6 +1209,13 @@ def family(tier, seed):
         enum_programs(tier) + generic_programs(tier)
     if INCLUDE_LISTED_TUPLE_SINGLE_FIELD:
         progs += listed_tuple_single_field_programs()
+    progs += listed_one_tuple_programs(tier) + enum_fieldless_annotated_programs(tier)
+    progs.append(prog_into("i_named3_same_owned_ref_mut_skip010_rawkw", "named", field_tys(3, "same"), skip=[False, True, False],
+                           sattr=kinds_attr(KINDS), names=["r#type", "r#in", "r#while"]))
+    progs.append(prog_from("e_named_rawkw", [Variant("A", "named", [INT("u32"), INT("u32")], names=["r#type", "r#in"]),
+                                             Variant("B", "named", [INT("u8")], "skip", names=["r#while"]),
+                                             Variant("C", "named", [INT("u16"), INT("u16"), INT("u16")], "ignore", names=["r#fn", "r#if", "r#else"]),
+                                             Variant("U", "unit", [])], True))
     keys = [p.key for p in progs]
     assert len(keys) == len(set(keys)), "duplicate program keys"
     n_type_level = sum(p.meta["type_level"] for p in progs)
